@@ -1,6 +1,7 @@
 package spine
 
 import (
+	"errors"
 	"sync"
 	"sync/atomic"
 	"time"
@@ -87,6 +88,14 @@ func (c *HeartbeatManager) StartHeartbeat() error {
 	timeout, err := c.heartBeatTimeout.GetTimeDuration()
 	if err != nil {
 		return err
+	}
+
+	// without the feature the heartbeat data can not be updated
+	c.mux.Lock()
+	localFeature := c.localFeature
+	c.mux.Unlock()
+	if localFeature == nil {
+		return errors.New("the DeviceDiagnosis server feature with the heartbeat function is missing")
 	}
 
 	// starting and stopping may be invoked concurrently
